@@ -9,8 +9,9 @@ namespace GoModel
 
 abbrev Str := List UInt8
 
-/-- Lean string literal to bytes (used for fixed ASCII texts only). -/
-def b (s : String) : Str := s.toUTF8.toList
+/-- Lean string literal to bytes.  Used for fixed ASCII texts only (one byte per character);
+defined through `toList` so that the kernel can evaluate it (`decide` works on model terms). -/
+def b (s : String) : Str := s.toList.map fun c => c.toNat.toUInt8
 
 def chDash : UInt8 := 45   -- '-'
 def chEq   : UInt8 := 61   -- '='
